@@ -1,6 +1,7 @@
 """C05 - a failed training run raises in bounded time and never returns weights."""
 import core
 import faultlib
+import protolib
 import schedlib
 
 RULE = ("X-fault: every learner (dict_ndl, ndl threading/openmp, wh binary-real / real-binary / real-real with openmp and "
@@ -12,7 +13,7 @@ RULE = ("X-fault: every learner (dict_ndl, ndl threading/openmp, wh binary-real 
         "process under a 120 s deadline (normal 0.1-2 s); a missed deadline is confirmed by an isolated 360 s re-run. The "
         "observed class return / raise / timeout must be the model's: raise for every fault, return for the controls and "
         "for byte budgets that every chunk fits. A case is non-trivial when it injects a fault; distinct by content hash. "
-        + schedlib.RULE + ".")
+        + schedlib.RULE + ". " + protolib.RULE + ".")
 TRUSTED = ["multiprocessing.Pool semantics as encoded in Proto.v; Python exception propagation through sequential code",
            "'bounded time' is a step bound in the model and a wall-clock deadline in the run; OS behaviour under a full "
            "disk beyond EFBIG is not modelled"]
@@ -63,7 +64,11 @@ def run(ctx):
     if not rep.violations:
         _, senc, smo = schedlib.run(ctx, 1500 if ctx.thorough else 200, "always")
         rep.lap("controlled_schedules")
-        n, badi = core.coq_crosscheck(senc[:40], smo[:40])
+        # ---- failing conversion jobs under chosen schedules of the submit protocol, step-aligned with Proto.pstep --
+        _, penc, pmo = protolib.run(ctx, 1500 if ctx.thorough else 200, "always")
+        rep.lap("controlled_protocol_schedules")
+        senc, smo = senc[:40] + penc[:30], smo[:40] + pmo[:30]
+        n, badi = core.coq_crosscheck(senc, smo)
         rep.note("vm_compute_crosschecked_cases", n)
         if badi:
             rep.violation("extracted model and vm_compute disagree", {"cases": badi}, no_input=True)
